@@ -934,6 +934,76 @@ def abort_push_windows(ck, exes):
                           {"engine": "E-SHIM", "sizeof_T": size, "scenario": sc, "script": script, "schedule": r.get("sched", []), "verdict": list(v), "results": r.get("res")})
 
 
+def stored_floor(sc, r):
+    """bounded queue, runs without abort: a lower bound of the number of stored items at every push completion, under EVERY linearization
+    of the pops in flight: (pushes that completed with an item) - (claimed pop tickets that are not invalidated slots).  A pop ticket is claimed by
+    the CAS on head_counter; a slot is invalid when the push that drew its ticket threw.  The bound must not exceed the capacity."""
+    cap = int(sc["cap"])
+    H, invalid, okp, cur = 0, set(), 0, {}
+    for ev in r["log"]:
+        if ev[0] == "e":
+            _, tid, kind, var, a, b, ok = ev
+            if var == "tail" and ((kind == "fadd") or (kind == "cas" and ok)):
+                cur[tid] = a
+            elif var == "head" and kind == "cas" and ok:
+                H = max(H, b)
+        elif ev[0] == "n" and ev[2] == "r":
+            _, tid, _, idx, code = ev
+            op = sc["progs"][tid][idx] if idx < len(sc["progs"][tid]) else ""
+            if op.startswith("bpush") or op.startswith("btrypush"):
+                if code == 0:
+                    okp += 1
+                    floor = okp - (H - len([t for t in invalid if t < H]))
+                    if floor > cap:
+                        return "after %d completed pushes at least %d items are stored under every linearization of the pops in flight (head_counter %d, invalidated slots below it %s): capacity %d" % (
+                            okp, floor, H, sorted(t for t in invalid if t < H), cap)
+                elif code == 1 and tid in cur:
+                    invalid.add(cur[tid])
+    return None
+
+
+# a pop that has claimed the ticket of an INVALIDATED slot waits behind an earlier pop on the same micro-queue (ticket - 8) while blocking pushes
+# arrive and nobody pops: thread 1 is stopped k scheduling points into its try_pop (k swept across the claim of ticket 0)
+def capacity_window_scenarios():
+    out = []
+    for cap, extra in ((10, 10), (9, 10)):
+        progs = [["bpush:%d:n" % v for v in range(8)] + ["bpush:8:c", "bpush:9:n"], ["trypop"], ["trypop"] * 7, ["trypop"],
+                 ["bpush:%d:n" % v for v in range(10, 10 + extra)], ["trypop"] * 3]
+        for k in range(3, 10):
+            out.append(({"kind": "b", "cap": str(cap), "progs": progs}, "0*,1:%d,2*,3*,4*,1*,3*,5*,4*,5*" % k))
+    return out
+
+
+def capacity_windows(ck, exes):
+    bad, n = [], 0
+    for size in (8, 64):
+        for sc, script in capacity_window_scenarios():
+            runs, _, note = run_harness(exes[size], sc, "script", script, 1)
+            n += len(runs)
+            for r in runs:
+                ck.count(1, ("capacity-window", size, sc["cap"], script.split(",")[1]))
+                v = ("crash", r["mon"], "crash") if r.get("crash") else monitors(sc, r)
+                if not v:
+                    f = stored_floor(sc, r)
+                    if f:
+                        v = ("capacity", f, "capacity-exceeded")
+                if v:
+                    bad.append((size, sc, script, r, v))
+            if not runs:
+                bad.append((size, sc, script, {"res": {}, "sched": [], "drain": None}, ("crash", note[:300], "crash")))
+        if bad:
+            break
+    ck.traces_validated += n
+    ck.oblige("monitor:bounded capacity while a pop that claimed an invalidated slot waits behind an earlier pop of its micro-queue and blocking pushes arrive "
+              "(scripted windows, the first pop stopped k = 3..9 scheduling points into its call): the number of stored items, bounded from below under every "
+              "linearization of the pops in flight, never exceeds the capacity; nothing stuck, lost or duplicated", "correspondence", not bad,
+              "; ".join("%s under %s: %s: %s" % (sc["progs"][1:4], script, v[0], v[1][:300]) for _, sc, script, _, v in bad[:2]))
+    for size, sc, script, r, v in bad[:1]:
+        ck.counterexample("capacity-window:" + v[2], "%s: %s (sizeof(T)=%d, capacity %s, programs %s, phase script %s)" % (v[0], v[1][:400], size, sc["cap"], sc["progs"], script),
+                          {"engine": "E-SHIM", "sizeof_T": size, "scenario": sc, "script": script, "schedule": r.get("sched", []), "verdict": list(v), "results": r.get("res"),
+                           "monitor": "stored_floor"})
+
+
 def skip_shape_demo(ck, exes):
     sc = SKIP_SCENARIO
     runs, _, note = run_harness(exes[8], sc, "script", SKIP_SCRIPT, 1)
@@ -1066,6 +1136,7 @@ def run(ck):
     skip_shape_demo(ck, exes)
     setcap_wake_shape(ck, exes)
     abort_push_windows(ck, exes)
+    capacity_windows(ck, exes)
     rng = ck.rng
     nsc, nrand = (14, 10) if quick else (120, 40)
     fams = [("unbounded", U_CORPUS + [gen_unbounded(rng) for _ in range(nsc)]),
@@ -1132,6 +1203,9 @@ def replay(ck, obj):
     bad = False
     for x in runs:
         v = "crash: " + x["mon"] if x.get("crash") else monitors(sc, x)
+        if not v and r.get("monitor") == "stored_floor":
+            f = stored_floor(sc, x)
+            v = ("capacity", f, "capacity-exceeded") if f else None
         print("results", x["res"], "drained", x["drain"], "harness-monitor", x["mon"], "verdict", v)
         exempt = x["mon"] == "VIOLATION capacity exceeded" and any("abort" in p for p in sc["progs"])
         if v or (x["mon"].startswith("VIOLATION") and not exempt):
